@@ -146,7 +146,7 @@ func (wc WC) Format(str string) (string, int) {
 		width++
 	}
 	if (wc.C & DSyncWidth) != 0 {
-		verifhook.Event(verifhook.WcSent, wc.wsync, width)
+		verifhook.Event(verifhook.WcSent, wc.wsync, width, str)
 		wc.wsync <- width
 		width = <-wc.wsync
 		verifhook.Event(verifhook.WcGot, wc.wsync, width)
